@@ -825,7 +825,14 @@ func (g *hgen) slowDelay(ce uint64, kinds string, withSync bool) *Delay {
 func genSlowFetch(r *Rand) Input {
 	g := newHist(r)
 	h := g.h
+	if h.SPE > 6 { // dense duties: long epochs add cost, not coverage
+		h.SPE = uint64(r.Range(2, 6))
+	}
 	withSync := r.Chance(1, 2)
+	if withSync { // a preparation job per slot of the period: keep the tables small
+		h.SPE = uint64(r.Range(2, 4))
+		h.Period = uint64([]int{2, 3, 4}[r.Intn(3)])
+	}
 	if r.Chance(2, 5) {
 		return genSlowDirect(g, withSync)
 	}
@@ -851,9 +858,9 @@ func genSlowFetch(r *Rand) Input {
 	g.add(Op{K: "setenv", Env: g.denseEnv(ce, ce+2, withSync)})
 	late(Op{K: "start"}, "", 2, 3)
 	prevRoot, curRoot, nextRoot := uint64(r.Range(1, 9)), uint64(r.Range(11, 19)), uint64(100)
-	steps := r.Range(3, int(h.SPE)+5)
-	if steps > 10 {
-		steps = 10
+	steps := r.Range(3, int(h.SPE)+4)
+	if steps > 8 {
+		steps = 8
 	}
 	envEpoch := ce
 	for i := 0; i < steps; i++ {
